@@ -132,7 +132,7 @@ func (s *Sim) muxServe(i int, op *Op) {
 		copy(buf, pay)
 		pay = buf
 	}
-	m := &mqtt.Message{Topic: op.Topic, QoS: mqtt.QoS(op.QoS), Retain: op.Retain, Payload: pay, ID: op.PresetID}
+	m := &mqtt.Message{Topic: unescapeTopic(op.Topic), QoS: mqtt.QoS(op.QoS), Retain: op.Retain, Payload: pay, ID: op.PresetID}
 	before := msgPkt(m)
 	s.log(Rec{Kind: "caller", Op: i + 1, S: "before", P: before})
 	h.Serve(m)
@@ -186,6 +186,15 @@ func genC20(r *Rng) *Scenario {
 		}
 		if r.chance(0.25) {
 			op := Op{AtUs: t, Actor: 5 + i, Kind: "muxserve", Topic: tps[r.IntN(len(tps))], Token: fmt.Sprintf("dm%d", i), QoS: byte(r.IntN(3)), Retain: r.chance(0.3), PayLen: int(r.between(0, 12)), CtxTimeoutUs: r.between(0, 500)}
+			if r.chance(0.3) {
+				op.PayLen = int(r.pickI(15, 16, 17, 31, 32, 33, 63, 64, 65, 127, 128, 129, 255, 256, 257, 1024)) // around the sizes an implementation may special-case
+			}
+			if r.chance(0.15) {
+				// a topic that is not valid UTF-8 (the application's own message, never parsed from the wire)
+				// (written with %XX escapes: scenarios travel as JSON, which would
+				// replace the invalid bytes)
+				op.Topic = []string{"a/%FF", "caf%E9/x", "a/%C3", "%F0%9F/x"}[r.IntN(4)]
+			}
 			if r.chance(0.5) {
 				op.Repeat = int(r.between(2, 6)) // capacity factor of the caller's buffer
 			}
@@ -198,7 +207,13 @@ func genC20(r *Rng) *Scenario {
 			continue
 		}
 		q := byte(r.IntN(2))
-		p := &Pkt{Type: TPublish, QoS: q, Topic: tps[r.IntN(len(tps))], Pay: fmt.Sprintf("in%d.%s", i, strings.Repeat("p", r.IntN(10))), Retain: r.chance(0.3), Dup: q > 0 && r.chance(0.3)}
+		pad := r.IntN(10)
+		if r.chance(0.3) {
+			pad = 0 // tiny packets (a body of 8 bytes or less with a one-level topic)
+		} else if r.chance(0.2) {
+			pad = int(r.pickI(11, 27, 59, 60, 61, 123, 251)) // payload sizes around 16 / 32 / 64 / 128 / 256
+		}
+		p := &Pkt{Type: TPublish, QoS: q, Topic: tps[r.IntN(len(tps))], Pay: fmt.Sprintf("in%d.%s", i, strings.Repeat("p", pad)), Retain: r.chance(0.3), Dup: q > 0 && r.chance(0.3)}
 		if q > 0 {
 			p.ID = uint16(10 + i)
 		}
@@ -268,4 +283,24 @@ func checkC20(ix *index, add addFn) {
 			}
 		}
 	}
+}
+
+// unescapeTopic turns %XX escapes into raw bytes (topics that are not valid UTF-8).
+func unescapeTopic(t string) string {
+	if !strings.Contains(t, "%") {
+		return t
+	}
+	var b []byte
+	for i := 0; i < len(t); i++ {
+		if t[i] == '%' && i+2 < len(t)+0 && i+2 <= len(t)-1+0 {
+			var v byte
+			if _, err := fmt.Sscanf(t[i+1:i+3], "%02X", &v); err == nil {
+				b = append(b, v)
+				i += 2
+				continue
+			}
+		}
+		b = append(b, t[i])
+	}
+	return string(b)
 }
